@@ -221,92 +221,116 @@ func ownedOnlyCut(fn *ssa.Function) (cut func(*ssa.BasicBlock, int) bool, tests 
 	return func(b *ssa.BasicBlock, i int) bool { return cutSet[edge{b, i}] }, tests
 }
 
+// reconcileKill locates the reconciliation KILL: a calls.Kill in package core/task that is only reachable when
+// the status' reason is RECONCILIATION. Returns its function and the call (tolerates the branch being extracted
+// from the dispatcher into a helper).
+func reconcileKill(c *an.Ctx) (*ssa.Function, *ssa.Call) {
+	for _, s := range c.SitesOf(func(n string) bool { return strings.HasSuffix(n, "scheduler/calls.Kill") }) {
+		if s.Fn.Pkg == nil || !strings.HasSuffix(s.Fn.Pkg.Pkg.Path(), "core/task") {
+			continue
+		}
+		call, ok := s.Call.(*ssa.Call)
+		if !ok {
+			continue
+		}
+		if cut, n := reasonCut(c, s.Fn); n > 0 && !an.ReachableCut(s.Fn, call, cut) {
+			return s.Fn, call
+		}
+	}
+	return nil, nil
+}
+
+// reasonCut removes the edges on which "reason == RECONCILIATION" is established.
+func reasonCut(c *an.Ctx, fn *ssa.Function) (func(*ssa.BasicBlock, int) bool, int) {
+	type edge struct {
+		b *ssa.BasicBlock
+		i int
+	}
+	cut := map[edge]bool{}
+	n := 0
+	want := lookupConstInt(c, "github.com/mesos/mesos-go/api/v1/lib", "REASON_RECONCILIATION")
+	for _, b := range fn.Blocks {
+		v, trueIdx, ok := an.BoolCondEdge(b)
+		if !ok {
+			continue
+		}
+		bo, ok := v.(*ssa.BinOp)
+		if !ok || (bo.Op != token.EQL && bo.Op != token.NEQ) {
+			continue
+		}
+		isRecon := false
+		for _, o := range []ssa.Value{bo.X, bo.Y} {
+			if str, isS := an.ConstString(o); isS && str == "REASON_RECONCILIATION" {
+				isRecon = true
+			}
+			if cst, isC := o.(*ssa.Const); isC && cst.Value != nil && want != nil && strings.HasSuffix(cst.Type().String(), "TaskStatus_Reason") {
+				if k, isK := constant.Int64Val(cst.Value); isK && k == *want {
+					isRecon = true
+				}
+			}
+		}
+		if !isRecon {
+			continue
+		}
+		n++
+		if bo.Op == token.EQL {
+			cut[edge{b, trueIdx}] = true
+		} else {
+			cut[edge{b, 1 - trueIdx}] = true
+		}
+	}
+	return func(b *ssa.BasicBlock, i int) bool { return cut[edge{b, i}] }, n
+}
+
 func r18cd(c *an.Ctx) {
-	fn := c.MustFn("core/task", "Manager.handleMessage")
 	c.Rule("R18c", "reconciliation answers in a live state lead to a Mesos KILL", 1)
-	if fn == nil {
+	disp := c.MustFn("core/task", "Manager.handleMessage")
+	if disp == nil {
 		return
 	}
-	kills := an.CallsSuffix(fn, "scheduler/calls.Kill")
+	fn, kill := reconcileKill(c)
 	key := "core/task.(*Manager).handleMessage|reconcile-kill"
-	if len(kills) != 1 {
-		c.Ob(key, fn.Pos(), false, "expected exactly one calls.Kill in the status dispatcher, found %d", len(kills))
+	if fn == nil {
+		c.Ob(key, disp.Pos(), false, "no Mesos KILL that is reachable only for status updates with reason RECONCILIATION was found in core/task (either the KILL is gone, or it is no longer restricted to reconciliation answers)")
 		return
 	}
-	kill := kills[0].(*ssa.Call)
+	c.Mark(fn)
 	c.Subject()
-	// the kill call is sent
+	// wired into the dispatcher
+	wired := fn == disp
+	if !wired {
+		for _, ci := range an.Calls(disp, func(n string, ci ssa.CallInstruction) bool { return ci.Common().StaticCallee() == fn }) {
+			_ = ci
+			wired = true
+		}
+	}
 	sent := false
 	for _, snd := range an.CallsSuffix(fn, "scheduler/calls.CallNoData") {
 		if snd.Common().Args[2] == ssa.Value(kill) {
 			sent = true
 		}
 	}
-	// reason guard
-	reason := false
-	for _, a := range an.Atoms(kill.Block()) {
-		if a.Op == token.EQL && a.Y != nil {
-			if s, ok := an.ConstString(a.Y); ok && s == "REASON_RECONCILIATION" {
-				reason = true
-			}
-			if s, ok := an.ConstString(a.X); ok && s == "REASON_RECONCILIATION" {
-				reason = true
-			}
-			for _, v := range []ssa.Value{a.X, a.Y} {
-				if cst, ok := v.(*ssa.Const); ok && cst.Value != nil && strings.HasSuffix(cst.Type().String(), "TaskStatus_Reason") {
-					if want := lookupConstInt(c, "github.com/mesos/mesos-go/api/v1/lib", "REASON_RECONCILIATION"); want != nil {
-						if k, ok := constant.Int64Val(cst.Value); ok && k == *want {
-							reason = true
-						}
-					}
-				}
-			}
+	c.Ob(key+"|reason", kill.Pos(), sent && wired, "the KILL for reconciliation answers must be sent (%v) from the status dispatcher (%v), and only when the reason is RECONCILIATION (established by cut-edge reachability)", sent, wired)
+	// live states: for each of STAGING/STARTING/RUNNING the KILL is reachable on a path feasible for that state
+	var stateV ssa.Value
+	an.Instrs(fn, func(in ssa.Instruction) {
+		if call, ok := in.(*ssa.Call); ok && an.MethodName(&call.Call) == "GetState" && strings.HasSuffix(call.Type().String(), "lib.TaskState") && stateV == nil {
+			stateV = call
 		}
-	}
-	c.Ob(key+"|reason", kill.Pos(), reason && sent, "the KILL must be sent, and only for status updates whose reason is RECONCILIATION (reason-guard=%v sent=%v)", reason, sent)
-	// state set: constants c such that an If `state == c` has its true edge leading to the kill region
-	states := map[int64]bool{}
-	region := map[*ssa.BasicBlock]bool{}
-	// region: blocks from which the kill block is reached without passing another If on TaskState (approximation: the kill block and its idom chain up to the reason guard)
-	for b := kill.Block(); b != nil; b = b.Idom() {
-		region[b] = true
-		if len(b.Preds) > 1 {
-			break
-		}
-	}
-	for _, b := range fn.Blocks {
-		ifi, ok := b.Instrs[len(b.Instrs)-1].(*ssa.If)
-		if !ok {
-			continue
-		}
-		bo, ok := ifi.Cond.(*ssa.BinOp)
-		if !ok || bo.Op != token.EQL {
-			continue
-		}
-		var cst *ssa.Const
-		if k, ok := bo.Y.(*ssa.Const); ok {
-			cst = k
-		} else if k, ok := bo.X.(*ssa.Const); ok {
-			cst = k
-		}
-		if cst == nil || cst.Value == nil || !strings.HasSuffix(cst.Type().String(), "lib.TaskState") {
-			continue
-		}
-		if region[b.Succs[0]] {
-			if v, ok := constant.Int64Val(cst.Value); ok {
-				states[v] = true
-			}
-		}
-	}
-	missing := []string{}
+	})
+	var missing []string
 	for _, name := range []string{"TASK_STAGING", "TASK_STARTING", "TASK_RUNNING"} {
 		v := lookupConstInt(c, "github.com/mesos/mesos-go/api/v1/lib", name)
-		if v == nil || !states[*v] {
+		if v == nil || stateV == nil || !an.ReachableAssuming(fn, stateV, constant.MakeInt64(*v), kill) {
 			missing = append(missing, name)
 		}
 	}
+	// and not reachable for a terminal state (sanity of the abstraction)
+	if v := lookupConstInt(c, "github.com/mesos/mesos-go/api/v1/lib", "TASK_FINISHED"); v != nil && stateV != nil && an.ReachableAssuming(fn, stateV, constant.MakeInt64(*v), kill) {
+		missing = append(missing, "(KILL also reachable for TASK_FINISHED)")
+	}
 	sort.Strings(missing)
-	c.Ob(key+"|live-states", kill.Pos(), len(missing) == 0, "the KILL must be reached for every state in which Mesos reports a task alive (missing: %v)", missing)
+	c.Ob(key+"|live-states", kill.Pos(), len(missing) == 0, "the KILL must be reached for every state in which Mesos reports a task alive, and not for terminal ones (problems: %v)", missing)
 
 	c.Rule("R18d", "the reconciliation KILL is unreachable for a task that is in the roster and owned by an environment", 1)
 	c.Subject()
